@@ -139,6 +139,25 @@ def diff_model(rows, n):
 
 
 # -------------------------------------------------------- linear test systems
+def _exp(v):
+    try:
+        return math.exp(v)
+    except OverflowError:
+        return math.inf
+
+
+def _expm1(v):
+    try:
+        return math.expm1(v)
+    except OverflowError:
+        return math.inf
+
+
+def _mul(x, e):
+    """x * e with 0 * inf = 0 (a zero coefficient stays zero)."""
+    return 0.0 if x == 0.0 else x * e
+
+
 def lin_exact(a, ctrl, s0, t):
     """
     Closed form of  ds_i/dt = a*s_i + u  at time t, all components.
@@ -148,12 +167,13 @@ def lin_exact(a, ctrl, s0, t):
     Returns (state list, control value).
     """
     kind, p = ctrl
-    eat = math.exp(a * t)
+    eat = _exp(a * t)
     if kind == "const":
-        grow = t if a == 0.0 else math.expm1(a * t) / a
-        return [x * eat + p * grow for x in s0], p
+        grow = t if a == 0.0 else _expm1(a * t) / a
+        return [_mul(x, eat) + _mul(p, grow) for x in s0], p
     if kind == "ks0":
-        st = [eat * (x + s0[0] * math.expm1(p * t)) for x in s0]
+        ekt = _expm1(p * t)
+        st = [_mul(x + _mul(s0[0], ekt), eat) for x in s0]
         return st, p * st[0]
     raise ValueError(kind)
 
@@ -163,10 +183,7 @@ def lin_envelope(a, ctrl, s0, t_limit, points=400):
     m = 0.0
     for j in range(points + 1):
         t = t_limit * j / points
-        try:
-            st, u = lin_exact(a, ctrl, s0, t)
-        except OverflowError:
-            return math.inf
+        st, u = lin_exact(a, ctrl, s0, t)
         m = max(m, abs(u), max(abs(x) for x in st),
                 max(abs(a * x + u) for x in st))
         if not math.isfinite(m):
